@@ -7,7 +7,7 @@ run_one() {
   [ -f /verif/props/$P.py ] || { echo "$S: (no check for $P yet)"; return; }
   WT=/tmp/seedrun_$S
   git -C /repo worktree add --detach $WT HEAD >/dev/null 2>&1
-  ( cd $WT && git apply /verif/seeded/$S/patch.diff ) || { echo "$S: patch does not apply"; git -C /repo worktree remove --force $WT; return; }
+  ( cd $WT && ( git apply /verif/seeded/$S/patch.diff 2>/dev/null || git apply --3way /verif/seeded/$S/patch.diff ) ) || { echo "$S: patch does not apply"; git -C /repo worktree remove --force $WT; return; }
   OUT=$(cd /verif && PYVC_REPO=$WT PYVC_EVIDENCE_DIR=/tmp/seedrun_ev_$S /verif/check $P 2>&1)
   RC=$(echo "$OUT" | grep -o "exit [0-9]$" | tail -1)
   V=$(echo "$OUT" | grep -c "^VIOLATION")
